@@ -8,7 +8,8 @@ from xml.etree import ElementTree as ET
 
 def to_tree(e):
     """ElementTree element -> JSON tree (attributes in document order)."""
-    return [e.tag, [[k, v] for k, v in e.attrib.items()], e.text, e.tail,
+    tag_ = e.tag if isinstance(e.tag, str) else '#' + getattr(e.tag, '__name__', repr(e.tag))   # Comment / PI nodes
+    return [tag_, [[k, v] for k, v in e.attrib.items()], e.text, e.tail,
             [to_tree(c) for c in e]]
 
 
